@@ -56,6 +56,11 @@ def run(ck):
     ck.clause("C14.5", "the join score depends on the two segments and the configuration only (no remembered state, no id())")
     join_score(ck)
     dp(ck)
+    ck.clause("C14.8", "the chainer the program runs with is built from the options that configure it: --segmentJoinMultiplier as the "
+                       "multiplier, --sequentialityScore as the variant (as C04.1)")
+    from ..report import RuleView as _RV14
+    from . import c04 as _c04
+    _c04.wiring(_RV14(ck, {"C04.1": "C14.8"}))
     ck.clause("C14.7", "the chainer keeps nothing from one call to the next: DP tables and links are local to a call (as C09.3 / C10.1)")
     from .c09 import persistent_state
     persistent_state(ck, "C14.7")
